@@ -103,6 +103,15 @@ package propertyf
 //@   site if#7 assert [C03] buf.buf.bytes == e5
 //@   site if#9 assert [C03] buf.buf.bytes == e6
 //@   site if#11 assert [C03] buf.buf.bytes == e7
+//@   site ).Write#0 assert [C03] $2 == 0
+//@   site ).Write#1 assert [C03] $2 == 1
+//@   site ).Write#2 assert [C03] $2 == 2
+//@   site ).Write#3 assert [C03] $2 == 3
+//@   site ).Write#4 assert [C03] $2 == 4
+//@   site ).Write#5 assert [C03] $2 == 5
+//@   site ).Write#6 assert [C03] $2 == 6
+//@   site ).Write#7 assert [C03] $2 == 7
+//@   sites ).Write = 8
 //@   safety [C03]
 //
 //@ func (*StatPropMsgHead).WriteBlock
@@ -174,6 +183,9 @@ package propertyf
 //@   perreturn
 //@   modifies buf.buf.bytes
 //@   ensures [C03] err == nil && buf.buf.bytes == pre
+//@   site ).Write#0 assert [C03] $2 == 0
+//@   site ).Write#1 assert [C03] $2 == 1
+//@   sites ).Write = 2
 //@   safety [C03]
 //
 //@ func (*StatPropInfo).WriteBlock
@@ -214,3 +226,12 @@ package propertyf
 //@   ensures [C05] readBuf.buf.i >= p0
 //@   ensures [C05] validR(readBuf)
 //@   safety [C05]
+//
+//@ func (*StatPropMsgBody).WriteTo
+//@   argsonly
+//@   noframe
+//@   allocates
+//@   site ).Write#0 assert [C03] $1 == 9 && $2 == 0
+//@   site ).Write#1 assert [C03] $2 == 0
+//@   site ).Write#2 assert [C03] $2 == 0
+//@   sites ).Write = 3
